@@ -104,6 +104,30 @@ def _run_pair(cfg):
     if tie_sensitive(c2, r2["log"]):
         return None
     t1, t2 = full_timeline(r1["log"]), full_timeline(r2["log"])
+    # what happens in and after the first instant at which anything fails or is cancelled depends on
+    # the order of callbacks inside that instant (a completion that ties with a failure), which the
+    # layout of the timer heap decides: the two runs are compared strictly before that instant
+    from .props_c10 import timeline as _tl
+    T = min(_tl(r1["log"])[0]["first_cancel"], _tl(r2["log"])[0]["first_cancel"])
+
+    def before(t):
+        out = {}
+        for k, v in t.items():
+            if k == "outcome":
+                if T == float("inf"):
+                    out[k] = v
+                continue
+            if isinstance(v, list) and v and isinstance(v[0], tuple):
+                out[k] = [x for x in v if x[0] < T]
+                continue
+            w = list(v)
+            if w[0] >= T:
+                continue
+            if len(w) > 1 and (w[1] is None or w[1] >= T):
+                w[1:] = [None, None]
+            out[k] = w
+        return out
+    t1, t2 = before(t1), before(t2)
     if t1 == t2:
         return {"scheduler": n, "same": True}
     keys = sorted(set(t1) | set(t2), key=str)
